@@ -6,6 +6,8 @@ CONSTANTS
   LeafChoices <- ExhLeafChoices
   Universe = "types"
   TypeDepth0 = 1
+  RichArgs = FALSE
+  MaxItems = 3
   MaxArgs = 2
   Target = 2
   MinDecls = 1
